@@ -72,12 +72,37 @@ def rule_SH(run: Run) -> RuleResult:
            "the switch reads or writes stored entries although caching is disabled (C16)")
     cm = repo.modules["labrea.cache"]
     for kind, req in (("set", "CacheSetRequest"), ("get", "CacheGetRequest"), ("exists", "CacheExistsRequest")):
-        fi = repo.func(f"labrea.cache._{kind}_cache_handler")
-        st = _first_stmts(fi.node)
-        ok = bool(st) and isinstance(st[0], ast.If) and ast.unparse(st[0].test) == "_cache_disabled(request)" \
-            and [ast.unparse(x) for x in st[0].body] == [f"return _disabled_{kind}_cache_handler(request)"]
+        fi, ps = _paths_fn(run, f"labrea.cache._{kind}_cache_handler",
+                           no_inline=("_cache_disabled", "_disabled_set_cache_handler", "_disabled_get_cache_handler", "_disabled_exists_cache_handler"))
+        ok = bool(ps)
+        why = ""
+        saw_on = saw_off = False
+        for p in ps:
+            sw = [c for c in p.conds if "call:_cache_disabled(request)" in c[2]]
+            backend = [e for e in p.events if e.kind == "call" and e.text in ("get", "set", "exists") and e.target is not None and "cache" in e.target.key()]
+            if not sw:
+                ok = False
+                why = "a path does not consult the caching switch"
+                continue
+            first_backend = min([p.events.index(e) for e in backend], default=None)
+            sw_idx = min(i for i, e in enumerate(p.events) if e.kind == "call" and e.text == "_cache_disabled")
+            if first_backend is not None and first_backend < sw_idx:
+                ok = False
+                why = "the backend is touched before the switch is consulted"
+            on = sw[0][1] != sw[0][2].startswith("unop:Not(")
+            if on:
+                saw_on = True
+                if backend or not (p.status == "ret" and p.ret.key() == f"call:_disabled_{kind}_cache_handler(request)"):
+                    ok = False
+                    why = f"with caching disabled the handler does not simply delegate to _disabled_{kind}_cache_handler"
+            else:
+                saw_off = True
+                if not backend:
+                    ok = False
+                    why = "with caching enabled the backend is not consulted"
+        ok = ok and saw_on and saw_off
         res.add(f"labrea.cache._{kind}_cache_handler:tests the switch first and delegates to its disabled twin", ok, cm.relpath, fi.node.lineno,
-                ast.unparse(st[0])[:120] if st else "empty", nec)
+                why or f"{len(ps)} paths: switch on -> _disabled_{kind}_cache_handler(request), switch off -> backend", nec)
         deco = [ast.unparse(d) for d in fi.node.decorator_list]
         res.add(f"labrea.cache._{kind}_cache_handler:registered for {req}", deco == [f"{req}.handle"], cm.relpath, fi.node.lineno, f"{deco}", nec)
     cd = repo.func("labrea.cache._cache_disabled")
